@@ -342,7 +342,7 @@ def required_labels(tier):
 
 
 def phases(tier, seed):
-    n = 3200 if tier == 'quick' else 40000
+    n = 3200 if tier == 'quick' else 300000
     return [
         Enum('boundaries', boundary_cases, exhaustive=True,
              note='both sides of every capacity boundary: 5 modes x 5 levels x 3 micro settings x admissible versions'),
